@@ -34,7 +34,8 @@ type StepResult struct {
 	// ABCI result of a delivered tx.
 	Code      uint32 `json:"code,omitempty"`
 	Codespace string `json:"codespace,omitempty"`
-	// Log is the ABCI log. For recovered panics the (non-deterministic) stack trace is cut off: Log is
+	// Log is the ABCI log of a FAILED tx (empty on success, where it would only repeat the events as
+	// JSON). For recovered panics the (non-deterministic) stack trace is cut off: Log is
 	// "recovered: <panic value>".
 	Log       string `json:"log,omitempty"`
 	GasUsed   int64  `json:"gas_used,omitempty"`
